@@ -2,97 +2,139 @@
 (***************************************************************************)
 (* lena/output: the chain                                                  *)
 (*   ToCSV, MakeFilename, Write, RenderLaTeX, Write, LaTeXToPDF, PDFToPNG  *)
+(* and its grouped variant (lena/flow/group_plots.py)                      *)
+(*   GroupBy, group_plots, MapGroup(ToCSV, MakeFilename, Write),           *)
+(*   MakeFilename, RenderLaTeX, Write, LaTeXToPDF, PDFToPNG                *)
 (* over histories of runs with changing data, changing template and        *)
-(* deleted files.  One action per element handling one value (plot):       *)
-(*   WriteCSV   Write.run on the csv text                                  *)
+(* deleted files.  A plot has sc.srcs[p] sources (csv files); with several  *)
+(* sources it is a group rendered into one tex / pdf / png.  One action     *)
+(* per element handling one value:                                         *)
+(*   WriteCSV   Write.run on the csv text of one source (inside MapGroup    *)
+(*              for a group); after the last source the flags of the        *)
+(*              members are combined (group_plots / MapGroup: True if any   *)
+(*              is True, else False).  A source that is an object with a    *)
+(*              `write` method (sc.obj[p]) is always written, changed True  *)
 (*   WriteTeX   Write.run on the rendered template                         *)
 (*   LaTeX      LaTeXToPDF.run: skip iff pdf exists, not overwrite and      *)
 (*              changed is False (changed absent: the tex is newer)        *)
 (*   PNG        PDFToPNG.run: skip iff png exists, not overwrite and        *)
 (*              changed is not True                                        *)
 (* output.changed travels with the value: "U" absent, "F", "T".             *)
-(* Between runs: Delete(p, kind), ChangeData(p), ChangeTpl (in a canonical  *)
-(* order, at most MaxTouch per step when histories are exported).           *)
+(* Between runs: Delete(p, kind, m), ChangeData(p, m), ChangeTpl (in a      *)
+(* canonical order, at most MaxTouch per step).                             *)
 (* CreatedSetsChanged = TRUE is the documented Write ("if a file was        *)
 (* written, output.changed is set to True"); FALSE is the pinned code       *)
 (* (a created file leaves output.changed as it was) - TLC refutes           *)
-(* AllCurrent for it.                                                       *)
+(* Regenerated / AllCurrent for it.                                         *)
 (***************************************************************************)
 EXTENDS OutputRef, Json
 
-CONSTANTS NP,          \* number of plots
+CONSTANTS Scens,       \* pipelines: set of [srcs: sources per plot, obj: the source is an object with a
+                       \* write method, grouped: the grouped variant of the chain]
           MaxRuns, MaxTouch,
           Settings,    \* set of [m1, m2, lo, po]: modes of the two Writes ("check", "existing_unchanged",
                        \* "overwrite"), overwrite of LaTeXToPDF and of PDFToPNG
           CreatedSetsChanged,
           KeepHistory
 
-VARIABLES dataVer, tplVer, files,      \* files[p] = [csv, tex, pdf, png]
+VARIABLES sc,                          \* the pipeline of this history
+          dataVer, tplVer, files,      \* dataVer[p][m]; files[p] = [csv (one per source), tex, pdf, png]
           texNewer,                    \* the tex was written after the pdf (modification times)
           set,                         \* the settings of this history
-          runs, ph, cur, ch,           \* runs completed; stage; plot in work; its output.changed
+          runs, ph, cur, mem, ch, mch, \* runs completed; stage; plot and source in work; output.changed of
+                                       \* the value in work; flags of the sources handled so far
           wrote, launched, chOut, pre, \* ghosts of the current / last run (per plot)
           touched, rank, fresh, rt,    \* touched since the last run; canonical order; nothing touched since
                                        \* the run that just ended; what had been touched before that run
           h
-vars == <<dataVer, tplVer, files, texNewer, set, runs, ph, cur, ch, wrote, launched, chOut, pre, touched, rank, fresh, rt, h>>
-view == <<dataVer, tplVer, files, texNewer, set, runs, ph, cur, ch, wrote, launched, chOut, pre, touched, rank, fresh, rt>>
+vars == <<sc, dataVer, tplVer, files, texNewer, set, runs, ph, cur, mem, ch, mch, wrote, launched, chOut, pre,
+          touched, rank, fresh, rt, h>>
+view == <<sc, dataVer, tplVer, files, texNewer, set, runs, ph, cur, mem, ch, mch, wrote, launched, chOut, pre,
+          touched, rank, fresh, rt>>
 
+NP == Len(sc.srcs)
 Plots == 1..NP
+NS(p) == sc.srcs[p]
 NoTouch == [del |-> <<>>, data |-> <<>>, tpl |-> FALSE]
-NoWrite == [csv |-> FALSE, tex |-> FALSE]
+NoWrite(p) == [csv |-> [m \in 1..NS(p) |-> FALSE], tex |-> FALSE]
 NoLaunch == [pdf |-> FALSE, png |-> FALSE]
 AllModes == {"check", "existing_unchanged", "overwrite"}
 SettingsAll == [m1 : AllModes, m2 : AllModes, lo : BOOLEAN, po : BOOLEAN]
 SettingsDefault == {[m1 |-> "check", m2 |-> "check", lo |-> FALSE, po |-> FALSE]}
-\* quick: the default and each option alone
+\* the default and each option alone
 SettingsQuick == SettingsDefault \cup
    {[m1 |-> a, m2 |-> a, lo |-> FALSE, po |-> FALSE] : a \in {"existing_unchanged", "overwrite"}} \cup
    {[m1 |-> "check", m2 |-> "check", lo |-> TRUE, po |-> FALSE], [m1 |-> "check", m2 |-> "check", lo |-> FALSE, po |-> TRUE]}
+\* pipelines
+Plain(n) == [srcs |-> [p \in 1..n |-> 1], obj |-> [p \in 1..n |-> FALSE], grouped |-> FALSE]
+Group(s) == [srcs |-> s, obj |-> [p \in 1..Len(s) |-> FALSE], grouped |-> TRUE]
+WithObj(o) == [srcs |-> [p \in 1..Len(o) |-> 1], obj |-> o, grouped |-> FALSE]
+ScenPlain1 == {Plain(1)}
+ScenPlain2 == {Plain(2)}
+ScenPlain3 == {Plain(3)}
+ScenGroup2 == {Group(<<2>>)}
+ScenGroup3 == {Group(<<3>>)}
+ScenGroupMix == {Group(<<2, 2>>), Group(<<2, 3>>)}
+ScenObj == {WithObj(<<TRUE>>), WithObj(<<TRUE, FALSE>>)}
+ScenQuickMC == {Plain(1), Group(<<2>>), WithObj(<<TRUE>>)}
+\* exported sets
+ScenExpB == {Plain(1), Group(<<2>>)}
+ScenExpC == {Plain(2), WithObj(<<TRUE>>), WithObj(<<TRUE, FALSE>>), Group(<<2, 2>>)}
+ScenExpF == {Group(<<3>>), Group(<<2, 2>>), Group(<<2, 3>>), WithObj(<<TRUE>>), WithObj(<<TRUE, FALSE>>), WithObj(<<FALSE, TRUE, FALSE>>)}
 
-Init == /\ dataVer = [p \in Plots |-> 1] /\ tplVer = 1
-        /\ files = [p \in Plots |-> [csv |-> Absent, tex |-> Absent, pdf |-> Absent, png |-> Absent]]
-        /\ texNewer = [p \in Plots |-> FALSE] /\ set \in Settings
-        /\ runs = 0 /\ ph = "idle" /\ cur = 0 /\ ch = "U"
-        /\ wrote = [p \in Plots |-> NoWrite] /\ launched = [p \in Plots |-> NoLaunch]
-        /\ chOut = [p \in Plots |-> "U"] /\ pre = files
+Init == /\ sc \in Scens /\ set \in Settings
+        /\ dataVer = [p \in 1..Len(sc.srcs) |-> [m \in 1..sc.srcs[p] |-> 1]] /\ tplVer = 1
+        /\ files = [p \in 1..Len(sc.srcs) |-> [csv |-> [m \in 1..sc.srcs[p] |-> Absent], tex |-> Absent,
+                                               pdf |-> Absent, png |-> Absent]]
+        /\ texNewer = [p \in 1..Len(sc.srcs) |-> FALSE]
+        /\ runs = 0 /\ ph = "idle" /\ cur = 0 /\ mem = 0 /\ ch = "U" /\ mch = <<>>
+        /\ wrote = [p \in 1..Len(sc.srcs) |-> [csv |-> [m \in 1..sc.srcs[p] |-> FALSE], tex |-> FALSE]]
+        /\ launched = [p \in 1..Len(sc.srcs) |-> NoLaunch]
+        /\ chOut = [p \in 1..Len(sc.srcs) |-> "U"] /\ pre = files
         /\ touched = NoTouch /\ rank = 0 /\ fresh = FALSE /\ rt = NoTouch /\ h = <<>>
 
 (***************************************************************************)
-(* Between runs.                                                           *)
+(* Between runs.  A touch is <<p, kind, m>> (m = 0 for tex / pdf / png).   *)
 (***************************************************************************)
-KindIdx(k) == CHOOSE i \in 1..4 : Kinds[i] = k
+DelRank(p, k, m) == 10 * (p - 1) + (CASE k = "csv" -> m [] k = "tex" -> 6 [] k = "pdf" -> 7 [] k = "png" -> 8)
+DataRank(p, m) == 10 * NP + 4 * (p - 1) + m
+TplRank == 14 * NP + 1
 CanTouch(r) == ph = "idle" /\ runs >= 1 /\ runs < MaxRuns /\ r > rank
                /\ Len(touched.del) + Len(touched.data) + (IF touched.tpl THEN 1 ELSE 0) < MaxTouch
-Keep == UNCHANGED <<texNewer, set, runs, ph, cur, ch, wrote, launched, chOut, pre, rt, h>>
-Delete(p, k) == /\ CanTouch(4 * (p - 1) + KindIdx(k)) /\ ~files[p][k].a
-                /\ files' = [files EXCEPT ![p][k] = Absent]
-                /\ touched' = [touched EXCEPT !.del = Append(@, <<p, k>>)]
-                /\ rank' = 4 * (p - 1) + KindIdx(k) /\ fresh' = FALSE
-                /\ Keep /\ UNCHANGED <<dataVer, tplVer>>
+Keep == UNCHANGED <<sc, texNewer, set, runs, ph, cur, mem, ch, mch, wrote, launched, chOut, pre, rt, h>>
+DeleteCsv(p, m) == /\ CanTouch(DelRank(p, "csv", m)) /\ ~files[p].csv[m].a
+                   /\ files' = [files EXCEPT ![p].csv[m] = Absent]
+                   /\ touched' = [touched EXCEPT !.del = Append(@, <<p, "csv", m>>)]
+                   /\ rank' = DelRank(p, "csv", m) /\ fresh' = FALSE
+                   /\ Keep /\ UNCHANGED <<dataVer, tplVer>>
+DeleteOther(p, k) == /\ CanTouch(DelRank(p, k, 0)) /\ ~files[p][k].a
+                     /\ files' = [files EXCEPT ![p][k] = Absent]
+                     /\ touched' = [touched EXCEPT !.del = Append(@, <<p, k, 0>>)]
+                     /\ rank' = DelRank(p, k, 0) /\ fresh' = FALSE
+                     /\ Keep /\ UNCHANGED <<dataVer, tplVer>>
 \* existing_unchanged documents the assumption that existing files are up to date:
 \* under it the data / template only change when the file to be written is not there
-ChangeData(p) == /\ CanTouch(4 * NP + p)
-                 /\ (set.m1 = "existing_unchanged" => files[p].csv.a)
-                 /\ dataVer' = [dataVer EXCEPT ![p] = @ + 1]
-                 /\ touched' = [touched EXCEPT !.data = Append(@, p)]
-                 /\ rank' = 4 * NP + p /\ fresh' = FALSE
-                 /\ Keep /\ UNCHANGED <<tplVer, files>>
-ChangeTpl == /\ CanTouch(5 * NP + 1)
+ChangeData(p, m) == /\ CanTouch(DataRank(p, m))
+                    /\ (set.m1 = "existing_unchanged" => files[p].csv[m].a)
+                    /\ dataVer' = [dataVer EXCEPT ![p][m] = @ + 1]
+                    /\ touched' = [touched EXCEPT !.data = Append(@, <<p, m>>)]
+                    /\ rank' = DataRank(p, m) /\ fresh' = FALSE
+                    /\ Keep /\ UNCHANGED <<tplVer, files>>
+ChangeTpl == /\ CanTouch(TplRank)
              /\ (set.m2 = "existing_unchanged" => \A p \in Plots : files[p].tex.a)
              /\ tplVer' = tplVer + 1 /\ touched' = [touched EXCEPT !.tpl = TRUE]
-             /\ rank' = 5 * NP + 1 /\ fresh' = FALSE
+             /\ rank' = TplRank /\ fresh' = FALSE
              /\ Keep /\ UNCHANGED <<dataVer, files>>
 
 (***************************************************************************)
 (* A run.                                                                  *)
 (***************************************************************************)
 StartRun == /\ ph = "idle" /\ runs < MaxRuns
-            /\ ph' = "csv" /\ cur' = 1 /\ ch' = "U"
-            /\ wrote' = [p \in Plots |-> NoWrite] /\ launched' = [p \in Plots |-> NoLaunch]
+            /\ ph' = "csv" /\ cur' = 1 /\ mem' = 1 /\ ch' = "U" /\ mch' = <<>>
+            /\ wrote' = [p \in Plots |-> NoWrite(p)] /\ launched' = [p \in Plots |-> NoLaunch]
             /\ chOut' = [p \in Plots |-> "U"] /\ pre' = files /\ fresh' = FALSE
             /\ rt' = touched /\ touched' = NoTouch /\ rank' = 0
-            /\ UNCHANGED <<dataVer, tplVer, files, texNewer, set, runs, h>>
+            /\ UNCHANGED <<sc, dataVer, tplVer, files, texNewer, set, runs, h>>
 
 \* Write.run on one value (docstring of Write.run): [f: the file afterwards, ch, w: written]
 WriteEl(mode, file, content, c) ==
@@ -100,27 +142,37 @@ WriteEl(mode, file, content, c) ==
   ELSE IF mode = "existing_unchanged" THEN [f |-> file, ch |-> IF c = "U" THEN "F" ELSE c, w |-> FALSE]
   ELSE IF mode = "overwrite" \/ file # content THEN [f |-> content, ch |-> "T", w |-> TRUE]
   ELSE [f |-> file, ch |-> IF c = "U" THEN "F" ELSE c, w |-> FALSE]
+\* "objects with a method write ... doesn't allow to learn whether the file has changed": always written
+WriteObj(content) == [f |-> content, ch |-> "T", w |-> TRUE]
+\* group_plots / MapGroup: output.changed of a group from those of its members
+Combine(flags) == IF \E i \in 1..Len(flags) : flags[i] = "T" THEN "T" ELSE "F"
 
-InRun == UNCHANGED <<dataVer, tplVer, set, runs, cur, chOut, pre, touched, rank, fresh, rt, h>>
+InRun == UNCHANGED <<sc, dataVer, tplVer, set, runs, cur, chOut, pre, touched, rank, fresh, rt, h>>
 WriteCSV == /\ ph = "csv"
-            /\ LET r == WriteEl(set.m1, files[cur].csv, C(0, dataVer[cur]), ch) IN
-                 /\ files' = [files EXCEPT ![cur].csv = r.f] /\ ch' = r.ch
-                 /\ wrote' = [wrote EXCEPT ![cur].csv = r.w]
-            /\ ph' = "tex" /\ InRun /\ UNCHANGED <<texNewer, launched>>
+            /\ LET content == C(0, <<dataVer[cur][mem]>>)
+                   r == IF sc.obj[cur] THEN WriteObj(content) ELSE WriteEl(set.m1, files[cur].csv[mem], content, "U")
+                   all == Append(mch, r.ch) IN
+                 /\ files' = [files EXCEPT ![cur].csv[mem] = r.f]
+                 /\ wrote' = [wrote EXCEPT ![cur].csv[mem] = r.w]
+                 /\ IF mem < NS(cur) THEN mem' = mem + 1 /\ mch' = all /\ UNCHANGED <<ph, ch>>
+                    ELSE /\ mem' = 1 /\ mch' = <<>> /\ ph' = "tex"
+                         /\ ch' = IF sc.grouped THEN Combine(all) ELSE all[1]
+            /\ InRun /\ UNCHANGED <<texNewer, launched>>
 WriteTeX == /\ ph = "tex"
-            /\ LET r == WriteEl(set.m2, files[cur].tex, C(tplVer, 0), ch) IN
+            /\ LET r == WriteEl(set.m2, files[cur].tex, C(tplVer, <<>>), ch) IN
                  /\ files' = [files EXCEPT ![cur].tex = r.f] /\ ch' = r.ch
                  /\ wrote' = [wrote EXCEPT ![cur].tex = r.w]
                  /\ texNewer' = [texNewer EXCEPT ![cur] = @ \/ r.w]
-            /\ ph' = "pdf" /\ InRun /\ UNCHANGED launched
+            /\ ph' = "pdf" /\ InRun /\ UNCHANGED <<launched, mem, mch>>
 LaTeX == /\ ph = "pdf"
          /\ LET c == IF ch = "U" THEN (IF files[cur].pdf.a \/ texNewer[cur] THEN "T" ELSE "F") ELSE ch
                 skip == ~set.lo /\ ~files[cur].pdf.a /\ c # "T" IN
               IF skip THEN /\ ch' = "F" /\ UNCHANGED <<files, launched, texNewer>>
-              ELSE /\ files' = [files EXCEPT ![cur].pdf = C(files[cur].tex.t, files[cur].csv.d)]
+              ELSE /\ files' = [files EXCEPT ![cur].pdf =
+                                  C(files[cur].tex.t, [m \in 1..NS(cur) |-> files[cur].csv[m].d[1]])]
                    /\ launched' = [launched EXCEPT ![cur].pdf = TRUE]
                    /\ texNewer' = [texNewer EXCEPT ![cur] = FALSE] /\ ch' = "T"
-         /\ ph' = "png" /\ InRun /\ UNCHANGED wrote
+         /\ ph' = "png" /\ InRun /\ UNCHANGED <<wrote, mem, mch>>
 Rec == [touched |-> rt,
         exp |-> [p \in Plots |-> [files |-> files'[p], wrote |-> wrote[p], launched |-> launched'[p], ch |-> chOut'[p]]]]
 PNG == /\ ph = "png"
@@ -133,11 +185,12 @@ PNG == /\ ph = "png"
                            /\ UNCHANGED <<runs, fresh, h>>
           ELSE /\ ph' = "idle" /\ cur' = 0 /\ ch' = "U" /\ runs' = runs + 1 /\ fresh' = TRUE
                /\ h' = IF KeepHistory THEN Append(h, Rec) ELSE h
-       /\ UNCHANGED <<dataVer, tplVer, texNewer, set, wrote, pre, touched, rank, rt>>
+       /\ UNCHANGED <<sc, dataVer, tplVer, texNewer, set, wrote, pre, touched, rank, rt, mem, mch>>
 
-DeleteAny == \E p \in Plots, k \in {"csv", "tex", "pdf", "png"} : Delete(p, k)
-ChangeDataAny == \E p \in Plots : ChangeData(p)
-Next == DeleteAny \/ ChangeDataAny \/ ChangeTpl \/ StartRun \/ WriteCSV \/ WriteTeX \/ LaTeX \/ PNG
+DeleteCsvAny == \E p \in Plots : \E m \in 1..NS(p) : DeleteCsv(p, m)
+DeleteOtherAny == \E p \in Plots, k \in {"tex", "pdf", "png"} : DeleteOther(p, k)
+ChangeDataAny == \E p \in Plots : \E m \in 1..NS(p) : ChangeData(p, m)
+Next == DeleteCsvAny \/ DeleteOtherAny \/ ChangeDataAny \/ ChangeTpl \/ StartRun \/ WriteCSV \/ WriteTeX \/ LaTeX \/ PNG
 Spec == Init /\ [][Next]_vars
 
 (***************************************************************************)
@@ -149,18 +202,23 @@ ChangedOK == fresh => \A p \in Plots : /\ ChangedFlag(chOut[p], wrote[p], launch
                                         /\ ChangedExact(chOut[p], wrote[p], launched[p]) /\ chOut[p] # "U"
 NoOverwrite == set.m1 # "overwrite" /\ set.m2 # "overwrite" /\ ~set.lo /\ ~set.po
 \* a run whose inputs are unchanged rewrites no file and launches no converter
-NoRedo == (fresh /\ runs >= 2 /\ rt = NoTouch /\ NoOverwrite) => \A p \in Plots : Nothing(wrote[p], launched[p])
+\* (a source with a write method is always written: excepted by the docstring of Write.run)
+NoRedo == (fresh /\ runs >= 2 /\ rt = NoTouch /\ NoOverwrite) =>
+             \A p \in Plots : ~sc.obj[p] => Nothing(wrote[p], launched[p])
 \* (model only) the same per plot: a plot none of whose inputs or files was touched is not redone
-TouchedPlot(p) == rt.tpl \/ (\E i \in 1..Len(rt.data) : rt.data[i] = p) \/ (\E i \in 1..Len(rt.del) : rt.del[i][1] = p)
-NoRedoPlot == (fresh /\ runs >= 2 /\ NoOverwrite) => \A p \in Plots : (~TouchedPlot(p) => Nothing(wrote[p], launched[p]))
+TouchedPlot(p) == rt.tpl \/ (\E i \in 1..Len(rt.data) : rt.data[i][1] = p) \/ (\E i \in 1..Len(rt.del) : rt.del[i][1] = p)
+NoRedoPlot == (fresh /\ runs >= 2 /\ NoOverwrite) =>
+                 \A p \in Plots : (~TouchedPlot(p) /\ ~sc.obj[p]) => Nothing(wrote[p], launched[p])
 \* what is skipped was there before and is left alone
 SkippedUntouched == fresh => \A p \in Plots : /\ (~launched[p].pdf => files[p].pdf = pre[p].pdf)
                                                /\ (~launched[p].png => files[p].png = pre[p].png)
-                                               /\ (~wrote[p].csv => files[p].csv = pre[p].csv)
+                                               /\ \A m \in 1..NS(p) : ~wrote[p].csv[m] => files[p].csv[m] = pre[p].csv[m]
                                                /\ (~wrote[p].tex => files[p].tex = pre[p].tex)
+\* a group is redone as a whole as soon as one of its sources was rewritten
+GroupRedone == fresh => \A p \in Plots : AnyCsv(wrote[p]) => launched[p].pdf /\ launched[p].png
 TypeOK == /\ ph \in {"idle", "csv", "tex", "pdf", "png"} /\ ch \in {"U", "F", "T"} /\ runs \in 0..MaxRuns
           /\ cur \in 0..NP /\ set \in SettingsAll
 
 Terminal == ph = "idle" /\ runs = MaxRuns
-Emitted == Terminal => PrintT(ToJson([np |-> NP, set |-> set, h |-> h]))
+Emitted == Terminal => PrintT(ToJson([sc |-> sc, set |-> set, h |-> h]))
 =============================================================================
